@@ -158,6 +158,18 @@ def run_entry(entry, n, seed, acc, tier):
         if doc is None:
             return {'skip': 'genfail'}
         c02.strip_known(doc, acc)
+        # "structurally valid" does not ask for valid values: defects that leave the matching of segments alone
+        vf = 0
+        if ch.chance(.3):
+            from .. import faults
+            for _ in range(ch.integer(1, 3)):
+                kind = ch.choice(['too-long', 'too-short', 'wrong-char-class', 'bad-date', 'bad-time', 'required-removed', 'extra-component', 'extra-element'])
+                cands = faults.candidates(doc, kind)
+                if cands:
+                    res = faults.inject(doc, kind, cands[ch.integer(0, len(cands) - 1)], ch.seed())
+                    if res is not None:
+                        doc = res[0]
+                        vf += 1
         present = []
         for s in doc.segs:
             for l, k in s.chain:
@@ -170,7 +182,7 @@ def run_entry(entry, n, seed, acc, tier):
             chosen.append(absent[ch.integer(0, len(absent) - 1)])
         return {'text': doc.text(), 'loop_ids': chosen,
                 'paths': [[l.id for l, k in s.chain] for s in doc.segs], 'insts': [[k for l, k in s.chain] for s in doc.segs],
-                'meta': {'file': entry['file']}}
+                'meta': {'file': entry['file'], 'value_faults': vf}}
 
     def chk(c):
         if 'skip' in c:
@@ -179,6 +191,8 @@ def run_entry(entry, n, seed, acc, tier):
         for lid in c['loop_ids']:
             sub = {'text': c['text'], 'loop_id': lid, 'paths': c['paths'], 'insts': c['insts'], 'meta': c['meta']}
             o = check_case(sub)
+            if c['meta'].get('value_faults'):
+                o.classes.append('with-value-level-defects')
             if first is None:
                 first = (sub, o)
             else:
